@@ -15,18 +15,6 @@ import (
 
 // ---- fakes ------------------------------------------------------------------------------------------
 
-// zzFlag implements async.MutFlag.
-type zzFlag struct {
-	set bool
-	ch  chan struct{}
-}
-
-func zzNewFlag(set bool) *zzFlag      { return &zzFlag{set: set, ch: make(chan struct{})} }
-func (f *zzFlag) IsSet() bool         { return f.set }
-func (f *zzFlag) Wait() <-chan struct{} { return f.ch }
-func (f *zzFlag) Set()                { f.set = true }
-func (f *zzFlag) Unset()              { f.set = false }
-
 // zzClientConn is a connection as the client sees it.
 type zzClientConn struct {
 	zzConn
